@@ -5,12 +5,15 @@ import DuneVerif.Common.Proto
   cmp   <T> <style> <a> <b> <eps>                 six comparisons; numbers are exact dyadics `m:e` = m·2^e; evaluated over
                                                   the rationals on the domain where every C++ intermediate is exact
   cmpv  <T> std|fv <style> [a,..] [b,..] <eps>    vector overloads (rationals)
-  round <T> <I> <style> <rstyle> <val> <eps>      trunc likewise (rationals)
+  round <T> <I> <style> <rstyle> <val> <eps>      trunc likewise (rationals; I as for mfri: the model reduces every value
+                                                  stored in an I variable as the type does, see roundM / truncM)
   fcmp / fcmpv / fround / ftrunc                  the same with T = f32|f64|f80 on ARBITRARY finite values of the format,
                                                   evaluated in the rounding arithmetic `FP f`; eps may be `def` (argument omitted)
   laws  …                                         law-only run on arbitrary bit patterns: the model is silent (`n/a`)
   mf    <style> <a> <b> <eps|def>                 8-bit minifloat codes 0..255, operations round
-  mfr   <style> <rstyle> <val> <eps|def>          round/trunc in the minifloat format
+  mfr   <style> <rstyle> <val> <eps|def>          round/trunc in the minifloat format (target type int)
+  mfri  <fmt> <I> <style> <rstyle> <val> <eps>    the same in the format e4m3 (that of mf/mfr) or e5m2 with the target type I
+                                                  (i8 u8 i16 u16 i32 u32 i64 u64); eps may be `def` for e4m3
   defeps <T> <style>
   pow <t> <te> <m> <p> | powf <T> <m:e> <p> | fact <t> <n> | binom <t> <n> <k> | sign <t|T> <x>
   cls fv|cx|fvcx|un <fmt> [hex,..]
@@ -40,6 +43,14 @@ def parseIType? : String → Option IType
   | "u32" => some uint32
   | "u64" => some uint64
   | _ => none
+
+/-- integer target types of round / trunc (the narrow ones are promoted to `int` in `lower+1`) -/
+def parseRTType? : String → Option IType
+  | "i8" => some int8
+  | "u8" => some uint8
+  | "i16" => some int16
+  | "u16" => some uint16
+  | s => parseIType? s
 
 /-- floating type: (mantissa bits of operands, mantissa bits of epsilon, exponent window, total precision) -/
 structure FT where
@@ -144,18 +155,23 @@ def mfEps? (s : Style) (tok : String) : Option MF :=
     | some e => if e < 120 then some (MF.decode e) else none
     | none => none
 
-/-- `I(val)`, `lower-1`, `upper+1` stay inside the target type (and the argument is not negative for unsigned targets) -/
-def rtInRange (ity : IType) (isRound : Bool) (v : FP f) : Bool :=
+/-- `I(val)`, `lower-1` and `upper+1` stay inside the target type; unsigned targets: the argument is above -1 (for an
+    argument in (-1,0) `lower--` wraps around to the largest value of the type: modelled) -/
+def rtInRange (ity : IType) (v : FP f) : Bool :=
   match v with
   | .fin n =>
     let t := FP.trunc v
     if ity.signed then decide (-(ity.hi - 2) ≤ t) && decide (t ≤ ity.hi - 2)
-    else (decide (0 ≤ n) || (isRound && decide (-(2 ^ f.sh : Int) < n))) && decide (t ≤ ity.hi - 2)
+    else decide (-(2 ^ f.sh : Int) < n) && decide (t ≤ ity.hi - 2)
   | _ => false
 
-/-- an unsigned `I` holds the integer `-1` (the integer below an argument in (-1,0)) as its largest value -/
-def showI (ity : IType) (r : Int) : String :=
-  if !ity.signed && r < 0 then toString (r + 2 ^ ity.bits) else toString r
+/-- the same for the exact ops; an argument in (-1,0) with an unsigned target makes `trunc` compute `T(M) - val` with
+    `M = 2^bits - 1`, which is exact in `T` only for `bits + ew ≤ prec` -/
+def rtInRangeQ (ft : FT) (ity : IType) (isRound : Bool) (v : Dy) : Bool :=
+  let t := v.trunc
+  if ity.signed then decide (-(ity.hi - 2) ≤ t) && decide (t ≤ ity.hi - 2)
+  else decide (t ≤ ity.hi - 2) &&
+    (!(v < (0 : Dy)) || (Dy.ofInt (-1) < v && (isRound || decide ((ity.bits : Int) + ft.ew ≤ ft.prec))))
 
 def mfFinite (c : Nat) : Bool := c < 256 && c / 8 % 16 != 15
 
@@ -198,24 +214,46 @@ def handle (line : String) : String :=
                 s!"eq={showB (eqFVRat s a b e)} ne={showB (neFVRat s a b e)}"
       | _ => "bad-op"
     | _, _, _, _, _ => "bad-op"
+  | ["mfri", fmt, it, st, rs, v, e] =>
+    match parseRTType? it, parseStyle? st, parseRStyle? rs, v.toNat? with
+    | some ity, some s, some r, some v =>
+      if fmt == "e4m3" then
+        match mfEps? s e with
+        | none => if e.toNat?.isSome then "skip" else "bad-op"
+        | some e =>
+        if !(mfFinite v) then "skip" else
+        let v := MF.decode v
+        if !(rtInRange ity v) then "skip" else
+        s!"round={roundM ity s r FP.trunc v e} trunc={truncM ity s r FP.trunc v e}"
+      else if fmt == "e5m2" then
+        match e.toNat? with
+        | none => "bad-op"
+        | some e =>
+        let fin (c : Nat) : Bool := c < 256 && c / 4 % 32 != 31
+        if !(fin v && fin e && e < 128) then "skip" else
+        let v := MFB.decode v; let e := MFB.decode e
+        if !(rtInRange ity v) then "skip" else
+        s!"round={roundM ity s r FP.trunc v e} trunc={truncM ity s r FP.trunc v e}"
+      else "bad-op"
+    | _, _, _, _ => "bad-op"
   | [op, t, it, st, rs, v, e] =>
     if op == "fround" || op == "ftrunc" then
-      match parseFmt? t, parseIType? it, parseStyle? st, parseRStyle? rs with
+      match parseFmt? t, parseRTType? it, parseStyle? st, parseRStyle? rs with
       | some f, some ity, some s, some r =>
         match parseFP? f v, parseEpsFP? f t s e with
         | some v, some e =>
-          if !(rtInRange ity (op == "fround") v) then "skip" else
-          if op == "fround" then showI ity (round s r FP.trunc v e) else showI ity (trunc s (!ity.signed) r FP.trunc v e)
+          if !(rtInRange ity v) then "skip" else
+          if op == "fround" then toString (roundM ity s r FP.trunc v e) else toString (truncM ity s r FP.trunc v e)
         | _, _ => "bad-op"
       | _, _, _, _ => "bad-op"
     else
     if op != "round" && op != "trunc" then "bad-op" else
-    match parseFT? t, parseIType? it, parseStyle? st, parseRStyle? rs, Dy.parse? v, Dy.parse? e with
+    match parseFT? t, parseRTType? it, parseStyle? st, parseRStyle? rs, Dy.parse? v, Dy.parse? e with
     | some ft, some ity, some s, some r, some v, some e =>
       if !(okVal ft v && okEps ft e) then "skip" else
-      if !ity.signed && v < (0 : Dy) && !(op == "round" && Dy.ofInt (-1) < v) then "skip" else
+      if !(rtInRangeQ ft ity (op == "round") v) then "skip" else
       let v := v.toRat; let e := e.toRat
-      if op == "round" then showI ity (roundRat s r v e) else showI ity (truncRat s (!ity.signed) r v e)
+      if op == "round" then toString (roundRatM ity s r v e) else toString (truncRatM ity s r v e)
     | _, _, _, _, _, _ => "bad-op"
   | ["laws", t, st, _, _, _] =>
     match parseFT? t, parseStyle? st with
@@ -257,7 +295,7 @@ def handle (line : String) : String :=
       | some e =>
       if !(mfFinite v) then "skip" else
       let v := MF.decode v
-      s!"round={round s r FP.trunc v e} trunc={trunc s false r FP.trunc v e}"
+      s!"round={roundM int32 s r FP.trunc v e} trunc={truncM int32 s r FP.trunc v e}"
     | _, _, _ => "bad-op"
   | ["defeps", t, st] =>
     match parseStyle? st with
